@@ -55,7 +55,7 @@ CONF = {
                 monitor_only=[("sessionfaulty", 400, 4000), ("faultyctx", 250, 2500), ("faultysync", 250, 2500), ("faultyalways", 400, 4000)],
                 big=[("session", 300, 3000)], fresh=True),
     "C12": dict(prefixes=("C12.",), builds=("pure",),
-                model=[("dedup", 500, 5000), ("dedupdirty", 700, 7000), ("dedupsync", 300, 3000)],
+                model=[("dedup", 400, 5000), ("dedupdirty", 500, 7000), ("dedupsync", 250, 3000), ("dedupself", 500, 5000)],
                 big=[("dedupdirty", 500, 5000)]),
 }
 
@@ -222,9 +222,9 @@ def main():
             cov["enumerated_family"] = "runaway recursion with 1-3 readers blocked on a pending batch, then a second computation: %d programs, all schedules" % len(en)
         if pid == "C12":
             if tier == "quick":
-                en = plang.enum_dedup(3, (1,), 2) + plang.enum_dedup(3, (2,), 2, bind="inst1")
+                en = plang.enum_dedup(3, (1,), 2) + plang.enum_dedup(3, (2,), 2, bind="inst1", key=2, spell0=2)
             else:
-                en = plang.enum_dedup(3, (1, 2, 3), 2) + plang.enum_dedup(2, (1, 2), 3) + plang.enum_dedup(3, (1, 2), 2, bind="inst1") + \
+                en = plang.enum_dedup(3, (1, 2, 3), 2) + plang.enum_dedup(2, (1, 2), 3) + plang.enum_dedup(3, (1, 2), 2, bind="inst1", key=2, spell0=2) + plang.enum_dedup(3, (1,), 2, bind="inst2", key=2, spell0=5) + \
                     plang.enum_dedup(3, (1, 2), 2, bind="static")
             fam += [("enum_dedup", p) for p in en]
             cov["enumerated_family"] = "root yields [D, actor..]; every actor sequence over {wait, call, dirty+call}: %d programs, all schedules" % len(en)
@@ -263,6 +263,10 @@ def main():
         jobs = []
         for b in mc["behaviours"]:
             jobs.append({"prog": progs[b["beh"] - 1], "schedule": b["sched"], "tb": None, "kind": "replay"})
+        # ---- natural runs: no tie-break component at all (priorities can tie exactly; set order decides) -----
+        for i, p in enumerate(progs):
+            if i % 3 == seed % 3:
+                jobs.append({"prog": p, "schedule": None, "tb": None, "kind": "natural"})
         # ---- (C') larger / monitor-only families under pseudo-random tie-breaks ---------------------------
         for prof, *ns in conf.get("big", []):
             for i, p in enumerate(plang.sample(prof, seed + 1000, ns[ti - 1])):
